@@ -310,13 +310,50 @@ fn answering_pattern<'a>(flat: &'a Flat, s: &Served, c: &CallRec) -> Option<&'a 
 pub fn check_c02(scn: &Scenario, res: &RunResult) -> Vec<Violation> {
     let mut out = vec![];
     let flat = scn.config.flatten();
-    for c in calls_of_mock(res, 0) {
+    // "the k-th call matching that pattern": k is counted over the history (whole operations are
+    // serialised in this world and a call is matched before its user program runs, so the order of
+    // invocation is the order of matching), not read from the mock's own counter
+    let mut matched_before: std::collections::BTreeMap<u16, u32> = Default::default();
+    let mut history_reliable = true;
+    let mut calls: Vec<&CallRec> = calls_of_mock(res, 0).collect();
+    calls.sort_by_key(|c| c.invoke_step);
+    for c in calls {
         if !flat.mentioned(c.m) {
             continue;
         }
         let Some(pre) = &c.pre else { continue };
-        if matches!(c.outcome, Some(Outcome::UserPanic(UserFault::Matcher { .. }))) {
+        // (a matcher panic inside this call's own evaluation: no match; one that propagated out of a
+        // nested call made by this call's user program does not undo this call's match)
+        if matches!(c.outcome, Some(Outcome::UserPanic(UserFault::Matcher { .. }))) && c.prog.is_none() {
             continue;
+        }
+        // which pattern this call matches according to the configuration (whether the mock agrees is
+        // C01's / C04's business): the position of the call is one more than the number of earlier
+        // calls of this history that matched the same pattern - whatever became of them afterwards
+        let matched = if flat.ordered(c.m) {
+            match slot_owner(&flat, pre.ordered) {
+                Some(q) if q.m == c.m && accepts(q, c.x, c.y) => Some(q),
+                _ => {
+                    history_reliable = false; // after a deviation the statement says nothing
+                    None
+                }
+            }
+        } else {
+            flat.of_method(c.m).into_iter().find(|q| accepts(q, c.x, c.y))
+        };
+        if let Some(q) = matched {
+            let seen = matched_before.entry(q.uid).or_default();
+            let before = count_of(pre, q).unwrap_or(0);
+            if history_reliable && *seen != before {
+                out.push(v(
+                    "C02",
+                    "position-is-number-of-earlier-matches",
+                    format!("{:?}", q.form),
+                    format!("{} was matched by {} earlier call(s) of this history, but its match count before this call is {before}: {}", pat_name(q.uid), *seen, describe(c)),
+                ));
+                history_reliable = false;
+            }
+            *seen += 1;
         }
         let s = served(&res.log, c);
         let Some(p) = answering_pattern(&flat, &s, c) else { continue };
